@@ -26,6 +26,7 @@ import (
 	"strconv"
 	"strings"
 	"sync"
+	"sync/atomic"
 	"time"
 
 	"github.com/hashicorp/go-version"
@@ -70,6 +71,17 @@ type op struct {
 	Vetoes []int    `json:"vetoes"`
 	Fll    []string `json:"fll"`
 	Tie    []int    `json:"tie"`
+	Par    []sub    `json:"par"`
+}
+
+// sub is one of the operations of a race.
+type sub struct {
+	Op  string `json:"op"`
+	N   string `json:"n"`
+	T   string `json:"t"`
+	D   int    `json:"d"`
+	S   bool   `json:"s"`
+	Cap bool   `json:"cap"`
 }
 
 type script struct {
@@ -114,12 +126,13 @@ type res struct {
 	Runs  []run    `json:"runs"`
 	Diag  diag     `json:"diag"`
 	SV    int      `json:"sv"`
+	Errs  []string `json:"errs"`
 	Text  string   `json:"text,omitempty"`
 	Panic string   `json:"panic,omitempty"`
 }
 
 func emptyRes() res {
-	return res{Calls: []callEv{}, Runs: []run{}, Diag: diag{Plan: []int{}}, SV: -1}
+	return res{Calls: []callEv{}, Runs: []run{}, Diag: diag{Plan: []int{}}, SV: -1, Errs: []string{}}
 }
 
 type fileEntry struct {
@@ -341,6 +354,9 @@ func runScript(tr *vio.Trace, h int, sc script) {
 		}
 		o.Fll = []string{}
 		o.Tie = []int{}
+		if o.Par == nil {
+			o.Par = []sub{}
+		}
 		var r res
 		switch {
 		case o.Op == "proc":
@@ -692,25 +708,90 @@ func (w *world) exec(o op) (r res) {
 			err = nil
 		}
 	case "inject":
-		w.mu.Lock()
-		in := w.inner[o.N]
-		if in == nil {
-			in, _ = hashmap.NewHashMap(o.N, "")
-			w.inner[o.N] = in
+		err = w.inject(o.N, o.Cap)
+	case "race":
+		// all operations at the same time, each from its own goroutine; gated (w = "gate"): the first uses and
+		// injections run up to the yield point in front of the controllers lock, then the registrations and the
+		// shutdown run to completion, then the parked operations go on
+		errs := make([]error, len(o.Par))
+		panics := make([]string, len(o.Par))
+		gated := o.W == "gate"
+		var ready, done, early sync.WaitGroup
+		start := make(chan struct{})
+		var finished int32
+		nEarly := 0
+		runSub := func(i int, q sub) {
+			defer func() {
+				if p := recover(); p != nil {
+					panics[i] = fmt.Sprint(p)
+				}
+			}()
+			switch q.Op {
+			case "use":
+				_, e := w.iface.Get(q.N + ":some/key")
+				if errors.Is(e, database.ErrNotFound) {
+					e = nil
+				}
+				errs[i] = e
+			case "inject":
+				errs[i] = w.inject(q.N, q.Cap)
+			case "register":
+				_, errs[i] = database.Register(&database.Database{Name: q.N, Description: descText(q.D), StorageType: q.T, ShadowDelete: q.S})
+			case "shutdown":
+				if w.mod {
+					errs[i] = modules.Shutdown()
+				} else {
+					errs[i] = database.Shutdown()
+				}
+			default:
+				errs[i] = errors.New("unknown operation in a race")
+			}
 		}
-		w.mu.Unlock()
-		m := &mock{name: o.N, injected: true, inner: in}
-		var st storage.Interface = m
-		if o.Cap {
-			st = &mockM{m}
+		isEarly := func(q sub) bool { return gated && (q.Op == "use" || q.Op == "inject") }
+		if gated {
+			gate.arm()
 		}
-		var c *database.Controller
-		c, err = database.InjectDatabase(o.N, st)
-		if err == nil {
-			w.mu.Lock()
-			w.handles[o.N] = c
-			w.insts[o.N] = m
-			w.mu.Unlock()
+		for i := range o.Par {
+			if isEarly(o.Par[i]) {
+				nEarly++
+				early.Add(1)
+				go func(i int, q sub) {
+					defer early.Done()
+					defer atomic.AddInt32(&finished, 1)
+					runSub(i, q)
+				}(i, o.Par[i])
+				continue
+			}
+			ready.Add(1)
+			done.Add(1)
+			go func(i int, q sub) {
+				defer done.Done()
+				ready.Done()
+				<-start
+				runSub(i, q)
+			}(i, o.Par[i])
+		}
+		if gated {
+			// every early operation is parked at the yield point or has returned
+			deadline := time.Now().Add(2 * time.Second)
+			for int(atomic.LoadInt32(&finished))+gate.parkedNow() < nEarly && time.Now().Before(deadline) {
+				time.Sleep(20 * time.Microsecond)
+			}
+		}
+		ready.Wait()
+		close(start)
+		done.Wait()
+		if gated {
+			gate.open()
+		}
+		early.Wait()
+		for i := range o.Par {
+			c := classify(errs[i])
+			if panics[i] != "" {
+				c = "panic"
+				r.Panic += panics[i] + "; "
+			}
+			r.Errs = append(r.Errs, c)
 		}
 	case "withdraw":
 		w.mu.Lock()
@@ -798,6 +879,75 @@ func (w *world) exec(o op) (r res) {
 	return r
 }
 
+// gates parks goroutines at the yield points in front of the controllers lock (build tag verif).
+type gates struct {
+	mu      sync.Mutex
+	on      bool
+	parked  int
+	release chan struct{}
+}
+
+var gate gates
+
+func (g *gates) arm() {
+	g.mu.Lock()
+	g.on = true
+	g.parked = 0
+	g.release = make(chan struct{})
+	g.mu.Unlock()
+}
+
+func (g *gates) open() {
+	g.mu.Lock()
+	g.on = false
+	close(g.release)
+	g.mu.Unlock()
+}
+
+func (g *gates) parkedNow() int {
+	g.mu.Lock()
+	defer g.mu.Unlock()
+	return g.parked
+}
+
+func (g *gates) hook(point string) {
+	if point != "getctl.beforeLock" && point != "inject.beforeLock" {
+		return
+	}
+	g.mu.Lock()
+	if !g.on {
+		g.mu.Unlock()
+		return
+	}
+	g.parked++
+	rel := g.release
+	g.mu.Unlock()
+	<-rel
+}
+
+func (w *world) inject(name string, capable bool) error {
+	w.mu.Lock()
+	in := w.inner[name]
+	if in == nil {
+		in, _ = hashmap.NewHashMap(name, "")
+		w.inner[name] = in
+	}
+	w.mu.Unlock()
+	m := &mock{name: name, injected: true, inner: in}
+	var st storage.Interface = m
+	if capable {
+		st = &mockM{m}
+	}
+	c, err := database.InjectDatabase(name, st)
+	if err == nil {
+		w.mu.Lock()
+		w.handles[name] = c
+		w.insts[name] = m
+		w.mu.Unlock()
+	}
+	return err
+}
+
 func descID(s string) int {
 	if s == "" {
 		return 0
@@ -845,6 +995,7 @@ func childMain() {
 			os.Exit(2)
 		}
 	}
+	database.VerifHook = gate.hook
 	if per {
 		database.EnableRegistryPersistence()
 	}
